@@ -70,6 +70,10 @@ def check_copies(ctx, case, x):
             a, b = pw.get(w, ([], [])), pw.get(v, ([], []))
             if a != b:
                 key = "double-clone" if known else "copies-differ"
+                if not known and case.get("mode") == "lazy":
+                    oa, ob = set(a[0]) - set(b[0]), set(b[0]) - set(a[0])
+                    if (not oa or shadowed_by_flavour(oa, b[0])) and (not ob or shadowed_by_flavour(ob, a[0])):
+                        key = "copies-differ:flat-node-counted-unrolled-through-a-dependency-flavour"
                 ctx.violate(key, f"the copies of workers {w} and {v} (same restrictions) differ after renaming: "
                             f"only {w}: {sorted(set(a[0]) - set(b[0]))[:3]} {sorted(set(a[1]) - set(b[1]))[:3]}; "
                             f"only {v}: {sorted(set(b[0]) - set(a[0]))[:3]} {sorted(set(b[1]) - set(a[1]))[:3]}", dict(case))
@@ -130,17 +134,20 @@ def lazy_case(case, order):
     return c
 
 
-def check_lazy(ctx, case, x_eager, n_orders):
-    """(2) lazy expansion under different interleavings vs. the graph parsed up front"""
+def check_lazy(ctx, case, x_eager, n_orders, fixed_order=None):
+    """(2) lazy expansion under different interleavings vs. the graph parsed up front (fixed_order: replay of one order)"""
     rng = ctx.rng
     rn, re_, rooted, dup = gl.canon_real(x_eager)
     known = c06.double_clone(x_eager)
-    for k in range(n_orders):
+    for k in range(1 if fixed_order is not None else n_orders):
         order = [(fi, w) for fi in range(gl.MAX_FLATS) for w in case["nets"]]
         rng.shuffle(order)
         partial = k == n_orders - 1 and n_orders > 1
         if partial:
             order = order[:max(1, len(order) // 3)]
+        if fixed_order is not None:
+            full = {(fi, w) for fi in range(gl.MAX_FLATS) for w in case["nets"]}
+            order, partial = list(fixed_order), not full <= set(fixed_order)
         lc = lazy_case(case, order)
         graph, status = gl.run_case(lc)
         ctx.count("lazy." + status.split(":")[0] + (".partial" if partial else ".complete"))
@@ -180,7 +187,7 @@ def check_lazy(ctx, case, x_eager, n_orders):
         else:
             if ln != rn or c07.project_edges(le) != c07.project_edges(re_):
                 pl, pe = c07.project_edges(le), c07.project_edges(re_)
-                ctx.violate(classify_lazy(case, sorted(set(ln) ^ set(rn)), pl, pe),
+                ctx.violate(classify_lazy(case, sorted(set(ln) ^ set(rn)), pl, pe, ln, rn),
                             f"lazy and eager graphs differ: nodes only lazy {sorted(set(ln) - set(rn))[:3]}, only eager "
                             f"{sorted(set(rn) - set(ln))[:3]}; edges only lazy {sorted(pl - pe)[:3]}, only eager "
                             f"{sorted(pe - pl)[:3]}", lc)
@@ -194,7 +201,24 @@ def check_lazy(ctx, case, x_eager, n_orders):
             check_copies(ctx, lc, xl)
 
 
-def classify_lazy(case, node_diff, pl, pe):
+def shadowed_by_flavour(missing, present):
+    """every missing node is a flavour of a test of which ANOTHER flavour (other vm assignment) is present: the signature of a
+    flat node counted as unrolled because a composite of the same test, created as the dependency of some other test on
+    another vm, hangs below it - the flat node's own flavour is then never expanded (recorded finding)"""
+    def parts(x):
+        p = x.split(";")[0].split("|")
+        return (p[0], p[2] if len(p) > 2 else ""), p[1]         # (test, worker), vm assignment
+    tests = {}
+    for x in present:
+        k, asg = parts(x)
+        tests.setdefault(k, set()).add(asg)
+    miss = [parts(x) for x in missing]
+    return bool(miss) and all(k in tests and asg not in tests[k] for k, asg in miss)
+
+
+def classify_lazy(case, node_diff, pl, pe, ln=None, rn=None):
+    if ln is not None and rn is not None and not (set(ln) - set(rn)) and shadowed_by_flavour(set(rn) - set(ln), ln):
+        return "lazy-differs-from-eager:flat-node-counted-unrolled-through-a-dependency-flavour"
     return "lazy-differs-from-eager"
 
 
@@ -244,6 +268,9 @@ def correspondence(ctx):
         n_suites, per_suite, n_orders = (90, 2, 3) if thorough else (14, 1, 2)
         for case in gl.corpus_cases("C09"):
             ctx.count("corpus.replayed")
+            if case.get("mode") == "lazy" and case.get("order"):
+                replay_case(ctx, case)          # a recorded expansion order
+                continue
             gl.run_attributed(ctx, case, lambda c, k: run_cases(c, [k], 2))
         budget = 1400 if thorough else 150
         cases = c06.gen_cases(rng, n_suites, per_suite, "large" if thorough else "small", lazy_share=0.0, max_workers=3)
@@ -279,25 +306,19 @@ def search(ctx, reason):
 
 
 def replay(ctx, payload):
-    case = gl.load_case(payload["case"])
+    replay_case(ctx, gl.load_case(payload["case"]))
+
+
+def replay_case(ctx, case):
+    case = dict(case)
     order = case.pop("order", None)
     try:
         if case.get("mode") == "lazy" and order:
             base = dict(case, mode="eager")
             graph, status = gl.run_case(base)
             if graph is not None:
-                x = gl.extract(graph)
-                lc = lazy_case(base, [tuple(o) for o in order])
-                g2, st2 = gl.run_case(lc)
-                if g2 is not None:
-                    xl = gl.extract(g2)
-                    ln, le, _, _ = gl.canon_real(xl)
-                    rn, re_, _, _ = gl.canon_real(x)
-                    lkeys = {s.split(";")[0] for s in ln}
-                    want = {e for e in c07.project_edges(re_) if e[0] in lkeys}
-                    if set(ln) - set(rn) or c07.project_edges(le) != want:
-                        ctx.violate(classify_lazy(base, [], set(), set()), "lazy graph differs from the eager one", lc)
-                ctx.case(c06.brief(lc))
+                check_lazy(ctx, base, gl.extract(graph), 1, fixed_order=[tuple(o) for o in order])
+                ctx.case(c06.brief(lazy_case(base, order)))
         else:
             run_cases(ctx, [case], 2)
     finally:
